@@ -57,10 +57,6 @@ fn load_or_fail(out: &mut Out, file: &GenFile) -> Option<Ddnnf> {
     }
 }
 
-fn circuit_line(d: &Ddnnf) -> String {
-    let wf = if d.number_of_variables <= 12 { "true" } else { "struct" };
-    format!("circuit nodes={} wf={} count={}", d.nodes.len(), wf, d.rc())
-}
 
 // ------------------------------------------------------------------------------------------------
 pub fn c01(a: &Args) {
